@@ -1,7 +1,8 @@
-(* Extraction of M-GLOB (matcher, ignore-file lines) and of IgnoreRules::check from M-WALK for the
-   correspondence check globmodel vs globdrv.  Directives in force: those of ExtrOcamlBasic only. *)
+(* Extraction of M-GLOB (matcher, ignore-file lines) and of M-WALK (IgnoreRules::check, the reference
+   walk, the serial walk, the parallel machine, the trace validator) for the correspondence checks
+   globmodel vs globdrv / walkdrv.  Directives in force: those of ExtrOcamlBasic only. *)
 From Coq Require Import NArith List.
-From XV Require Import Glob.Match Glob.Pattern Walker.Model.
+From XV Require Import Glob.Match Glob.Pattern Walker.Model Walker.Trace.
 Require Import ExtrOcamlBasic.
 Extraction Language OCaml.
 Separate Extraction
@@ -9,4 +10,6 @@ Separate Extraction
   Match.glob_match Match.glob_matches
   Pattern.pattern_new Pattern.pattern_new_panics Pattern.content_to_patterns Pattern.applies
   Pattern.lines Pattern.is_rule_line Pattern.strip_trailing_blanks
-  Model.check_str Model.add_patterns Model.empty_rules.
+  Model.check_str Model.add_patterns Model.empty_rules
+  Model.spec_walk Model.serial_walk Model.par_walk Model.final Model.dir_count Model.wf_tree
+  Trace.par_walk_drained Trace.tv_validate.
